@@ -139,8 +139,14 @@ Definition q_first (dflt : list (A -> Z)) (q : query) : option A :=
   let q1 := if has_order q then q else add_order dflt q in
   hd_error (ok_list (q_getitem (set_distinct false q1) None (Some 1))).
 
-(* delete(bulk=True): construct_delete_sql_ast uses translator.conditions only;  delete(): _actual_fetch() then obj._delete_() *)
-Definition bulk_deleted (q : query) : list A := filter (q_keep q) (q_rows q).
+(* delete(bulk=True): a query that carries a LIMIT/OFFSET (it iterates over a limited subquery) takes the per-object path
+   (`if not bulk or translator.limit is not None or translator.offset is not None`); otherwise construct_delete_sql_ast deletes the
+   rows that satisfy translator.conditions.  delete(): _actual_fetch() then obj._delete_() *)
+Definition bulk_deleted (q : query) : list A :=
+  match q_window q with
+  | (None, None) => filter (q_keep q) (q_rows q)
+  | _ => q_list q
+  end.
 Definition plain_deleted (q : query) : list A := q_list q.
 
 End Query.
@@ -209,17 +215,16 @@ Definition q_group_concat (arg : option bool) (q : query (A:=Z)) : result (list 
   | _ => Err 2%nat
   end.
 
-(* count() of a query whose expression is a tuple (here: two integer columns).  construct_sql_ast emits COUNT( * ) when neither
-   the query nor the method asks for DISTINCT, and otherwise COUNT([DISTINCT] <first column>) -- the subquery form
-   SELECT COUNT( * ) FROM (SELECT DISTINCT ...) is reserved for entities *)
+(* count() of a query whose expression is a tuple (here: two integer columns).  construct_sql_ast: when the query is executed with
+   DISTINCT the count is taken over a subquery, SELECT COUNT( * ) FROM (SELECT DISTINCT ...) -- count(distinct=True) is refused there by
+   `assert len(expr_columns) == 1`; without DISTINCT it is COUNT( * ), or COUNT(DISTINCT <first column>) for count(distinct=True) *)
 Definition zz_eqb (x y : Z * Z) : bool := (fst x =? fst y) && (snd x =? snd y).
 Definition q_count_pair (arg : option bool) (q : query (A:=Z * Z)) : result Z :=
   match combine (q_window q) no_window with
   | (None, None) =>
       let L := filter (q_keep q) (q_rows q) in
-      if negb (eff_distinct q) && negb (match arg with Some true => true | _ => false end) then Ok (zlen L)
-      else if (match arg with Some false => false | _ => true end) then Ok (zlen (dedup Z.eqb (map fst L)))
-      else Ok (zlen L)
+      if eff_distinct q then match arg with Some true => Err 2%nat | _ => Ok (zlen (dedup zz_eqb L)) end
+      else match arg with Some true => Ok (zlen (dedup Z.eqb (map fst L))) | _ => Ok (zlen L) end
   | _ => Err 2%nat
   end.
 
